@@ -2,6 +2,7 @@
 package c10
 
 import (
+	"sort"
 	"bytes"
 	"context"
 	"encoding/json"
@@ -83,6 +84,22 @@ func genFilterCfg(t *rapid.T) filtermodel.Config {
 	}
 	if rapid.IntRange(0, 2).Draw(t, "hasCmdBlack") == 0 {
 		c.CmdBlack = rapid.SliceOfNDistinct(rapid.SampledFrom([]string{"lpop", "PFADD", "Rename", "evalsha", "hincrby", "DEL", "mset", "Zunionstore"}), 1, 2, rapid.ID[string]).Draw(t, "cb")
+		if rapid.Bool().Draw(t, "relatedNames") {
+			// names of which one is a prefix of another (set / setnx / setex / setrange, incr / incrby, restore / RESTORE-ASKING ...), in any
+			// order: the blacklist is an exact-match set, whatever structure holds it
+			fam := rapid.SampledFrom(cmdFamilies).Draw(t, "family")
+			names := rapid.SliceOfNDistinct(rapid.SampledFrom(fam), 2, len(fam), rapid.ID[string]).Draw(t, "familyNames")
+			c.CmdBlack = nil
+			for _, n := range names {
+				if rapid.IntRange(0, 3).Draw(t, "upperName") == 0 {
+					n = strings.ToUpper(n)
+				}
+				c.CmdBlack = append(c.CmdBlack, n)
+			}
+			if rapid.Bool().Draw(t, "plusOther") {
+				c.CmdBlack = append(c.CmdBlack, rapid.SampledFrom([]string{"lpop", "PFADD", "Rename", "DEL"}).Draw(t, "other"))
+			}
+		}
 	}
 	return c
 }
@@ -112,6 +129,9 @@ func (c Cmd) raw() [][]byte { return pbt.Raw(c.Args) }
 
 var tableNames []string
 
+// cmdFamilies: command names of the reference table (and of the tool's built-in black list) that are prefixes of one another
+var cmdFamilies [][]string
+
 func init() {
 	for n := range keyspec.Table {
 		tableNames = append(tableNames, n)
@@ -126,11 +146,71 @@ func init() {
 	}
 }
 
+func init() {
+	all := append([]string(nil), tableNames...)
+	for n := range filtermodel.Admin {
+		all = append(all, n)
+	}
+	all = append(all, "restore", "sync", "save", "bgsave", "role", "wait", "reset", "echo")
+	seen := map[string]bool{}
+	for _, a := range all {
+		fam := []string{a}
+		for _, b := range all {
+			if b != a && strings.HasPrefix(b, a) && !seenIn(fam, b) {
+				fam = append(fam, b)
+			}
+		}
+		if len(fam) >= 2 && !seen[a] {
+			seen[a] = true
+			cmdFamilies = append(cmdFamilies, fam)
+		}
+	}
+	sort.Slice(cmdFamilies, func(i, j int) bool { return cmdFamilies[i][0] < cmdFamilies[j][0] })
+	for _, f := range cmdFamilies {
+		sort.Strings(f[1:])
+	}
+}
+
+func seenIn(l []string, x string) bool {
+	for _, y := range l {
+		if y == x {
+			return true
+		}
+	}
+	return false
+}
+
+// biasToBlacklist: one command in four is taken from the configured black list or from the relatives of its names
+func biasToBlacklist(t *rapid.T, cfg filtermodel.Config, c Cmd) Cmd {
+	if len(cfg.CmdBlack) == 0 || rapid.IntRange(0, 3).Draw(t, "hitBlacklist") != 0 {
+		return c
+	}
+	var cands []string
+	for _, b := range cfg.CmdBlack {
+		lb := strings.ToLower(b)
+		for _, n := range tableNames {
+			if strings.HasPrefix(n, lb) || strings.HasPrefix(lb, n) {
+				cands = append(cands, n)
+			}
+		}
+	}
+	if len(cands) == 0 {
+		return c
+	}
+	sort.Strings(cands)
+	name := rapid.SampledFrom(cands).Draw(t, "blackRelative")
+	return genCmdNamed(t, name)
+}
+
 func genCmd(t *rapid.T) Cmd {
 	name := rapid.SampledFrom(tableNames).Draw(t, "cmd")
 	if rapid.IntRange(0, 3).Draw(t, "multikeyBias") == 0 {
 		name = rapid.SampledFrom([]string{"del", "unlink", "mset", "rename", "sinterstore", "bitop", "zunionstore", "msetnx", "pfmerge", "eval"}).Draw(t, "mk")
 	}
+	return genCmdNamed(t, name)
+}
+
+func genCmdNamed(t *rapid.T, name string) Cmd {
 	sp := keyspec.Table[name]
 	val := func() []byte { return gen.GenVal().Draw(t, "v") }
 	var args [][]byte
@@ -285,6 +365,7 @@ func runPure(c PureCase) (fs []failure, nontrivial bool) {
 func TestC10Pure(t *testing.T) {
 	rapid.Check(t, func(t *rapid.T) {
 		c := PureCase{Cfg: genFilterCfg(t), Cmd: genCmd(t), DB: rapid.IntRange(0, 15).Draw(t, "db")}
+		c.Cmd = biasToBlacklist(t, c.Cfg, c.Cmd)
 		st := pbt.For(prop)
 		st.Case()
 		cj := pbt.JSON(c)
